@@ -24,4 +24,14 @@ iface (f Filter) Kind() (k *Kind)
   trusted
   pure
   ensures k != nil
+
+iface (s Spec) Kind() (k string)
+  trusted
+  pure
+
+// the registry of filter kinds is filled at package initialisation; a validated spec names a registered kind
+func GetKind(name string) (k *Kind)
+  trusted
+  pure
+  ensures k != nil
 @*/
